@@ -24,7 +24,8 @@ for p in props:
     note = n.get("note", "Trusted: " + "; ".join(m.TRUSTED) + ". Assumed: " + "; ".join(m.ASSUMPTIONS))
     if tie:
         tech += (" + source tie by translation: tools_rs2v.py regenerates Gallina definitions from the current Rust text of the "
-                 "word-level helpers, limb-slice loop kernels, small-division and Montgomery kernels and thin Uint wrappers in this "
+                 "word-level helpers, limb-slice loop kernels, the division stack (dispatch, n-by-1/2, Knuth D, reciprocals), Montgomery, "
+                 "Lehmer gcd / matrix, pow / modular loops and Uint wrappers in this "
                  "property's files on every run and Properties/GenTie.v re-proves them equal to the model")
         note += ("; tools_rs2v.py (Rust-subset to Gallina translator, trusted) and coq/Gen/Prim.v for the functions listed in evidence coverage.source_tie")
     checks.append({
